@@ -20,7 +20,30 @@ _CLOSE = re.compile(r'close\((\d+)\)\s+= 0')
 _UNLINK = re.compile(r'unlink(?:at)?\((?:[^,"]+, )?"([^"]+\.bitcask\.(?:data|hint))"[^)]*\)\s+= 0')
 
 
+_UNFIN = re.compile(r"^(\d+)\s+(\w+)\((.*) <unfinished \.\.\.>\s*$")
+_RESUM = re.compile(r"^(\d+)\s+<\.\.\. (\w+) resumed>(.*)$")
+
+
+def join_lines(trace):
+    """strace -f splits a call that is interrupted by another thread into `... <unfinished ...>` and
+    `<... NAME resumed> ...`; put the two halves together again (in the position of the second half)."""
+    pending = {}
+    out = []
+    for line in trace.splitlines():
+        m = _UNFIN.match(line)
+        if m:
+            pending[(m.group(1), m.group(2))] = m.group(3)
+            continue
+        m = _RESUM.match(line)
+        if m and (m.group(1), m.group(2)) in pending:
+            out.append("%s %s(%s%s" % (m.group(1), m.group(2), pending.pop((m.group(1), m.group(2))), m.group(3)))
+            continue
+        out.append(line)
+    return "\n".join(out)
+
+
 def analyse(trace):
+    trace = join_lines(trace)
     fd_path = {}
     dirty = {}   # path -> bytes written since last sync
     for line in trace.splitlines():
